@@ -544,6 +544,9 @@ type SpecFunc struct {
 	Body    Expr
 	BodyTxt string
 	Rec     bool
+	// `specfold f p n`: f depends on the heap of p's elements only through p[0..n) — proved by
+	// induction as its own obligation (fold:f) and then available as an extensionality axiom
+	FoldSlice, FoldN string
 }
 
 type Lemma struct {
@@ -595,7 +598,7 @@ func (cf *ContractFile) parse(src, file string) error {
 	}
 	keywords := map[string]bool{"func": true, "extern": true, "requires": true, "ensures": true, "modifies": true, "pure": true,
 		"floats": true, "mode": true, "inline": true, "trusted": true, "ovf": true, "loop": true, "lemma": true, "spec": true,
-		"opt": true, "ghost": true, "uses": true, "nopanic": true, "purefuncs": true, "function": true, "nowrite": true, "callpre": true}
+		"opt": true, "ghost": true, "specfold": true, "uses": true, "nopanic": true, "purefuncs": true, "function": true, "nowrite": true, "callpre": true}
 	var clauses []string
 	for _, ln := range lines {
 		if ln == "" {
@@ -645,6 +648,14 @@ func (cf *ContractFile) parse(src, file string) error {
 				return err
 			}
 			cf.SpecFuncs[sf.Name] = sf
+			cur = nil
+			curLemma = nil
+		case kw == "specfold":
+			fs := strings.Fields(rest)
+			if len(fs) != 3 || cf.SpecFuncs[fs[0]] == nil {
+				return fmt.Errorf("specfold needs '<spec function> <slice param> <count param>': %q", cl)
+			}
+			cf.SpecFuncs[fs[0]].FoldSlice, cf.SpecFuncs[fs[0]].FoldN = fs[1], fs[2]
 			cur = nil
 			curLemma = nil
 		case strings.HasPrefix(kw, "lemma"):
